@@ -18,10 +18,10 @@ open Lean Wire Dot
 def S (s : Str) : Json := Json.str (String.ofList s)
 
 def tokJ : Tok → Json
-  | .id s => S ("i:".toList ++ s)
-  | .num s => S ("n:".toList ++ s)
-  | .qstr s => S ("q:".toList ++ s)
-  | .html s => S ("h:".toList ++ s)
+  | .id s => S (cl!"i:" ++ s)
+  | .num s => S (cl!"n:" ++ s)
+  | .qstr s => S (cl!"q:" ++ s)
+  | .html s => S (cl!"h:" ++ s)
   | _ => Json.null
 
 def attrsJ (as : List (Tok × Tok)) : Json := Json.arr (as.map fun (k, v) => Json.arr #[tokJ k, tokJ v]).toArray
@@ -39,7 +39,7 @@ def evJ : Ev → Json
 def recordsOk (evs : List Ev) : Bool :=
   evs.all fun
     | .node _ as => as.all fun (k, v) =>
-        if k = tId "label" then (match v with | .qstr s => recOk s | _ => true) else true
+        if k = (Tok.id cl!"label") then (match v with | .qstr s => recOk s | _ => true) else true
     | _ => true
 
 def recJ (text : Str) : List (String × Json) :=
